@@ -214,6 +214,11 @@ func summarize(eng *Engine, vcs []*VC, missing []string, prop, tier string, verb
 				fmt.Printf("  %-8s %-11s %5dms %s\n", o.Answer, o.Solver, o.Ms, o.Name)
 			}
 		}
+		if verbose {
+			for a := range vc.assumes {
+				fmt.Printf("  assume[%s]: %s\n", vc.con.Key, a)
+			}
+		}
 		if n == 0 {
 			r.Errors = append(r.Errors, vc.con.Key+": no obligations generated")
 			r.Fails = append(r.Fails, &FailRec{Obligation: vc.con.Key + "#nonempty", Answer: "no-obligations", Fn: vc.con.Key, Kind: "vacuity"})
